@@ -95,7 +95,10 @@ def consumer_cases():
     """the places where the library itself configures the issuer check for a caller: only the configured issuer passes;
     and the derived ID-Token rules (nonce, aud / azp, exp with leeway, at_hash) as the three client integrations apply them"""
     from props import c13
-    return [{"consumer": cn, "iss": y} for cn in CONSUMERS for y in ISS_NEAR] + [dict(c, consumer="rp:" + c["fw"]) for c in c13.rp_cases()]
+    # … and the audience check the RFC 7523 client-assertion validator configures (the token endpoint URL)
+    auds = ["=", "+/", "-1", "+x", "upper", "list", "list-other", "missing", "", "other", "superstring", "empty-list", "zero", "false"]
+    return [{"consumer": cn, "iss": y} for cn in CONSUMERS for y in ISS_NEAR] + [dict(c, consumer="rp:" + c["fw"]) for c in c13.rp_cases()] + \
+        [{"consumer": "rfc7523_client_assertion", "iss": "=", "aud": a} for a in auds]
 
 
 def near_iss(y):
@@ -121,6 +124,21 @@ def impl_consumer(c):
         t = _jwt.encode(dict({"alg": "HS256", "kid": "k1"}, **(header or {})), claims, key)
         return t.decode() if isinstance(t, bytes) else t
     try:
+        if cn == "rfc7523_client_assertion":
+            from authlib.oauth2.rfc7523 import JWTBearerClientAssertion
+            from authlib.oauth2.rfc6749.errors import OAuth2Error
+            X = "https://as.example/tenant/token"
+            aud = {"=": X, "+/": X + "/", "-1": X[:-1], "+x": X + "x", "upper": X.upper(), "list": [X], "list-other": ["https://other/token"], "missing": None, "": "", "other": "https://other/token",
+                   "superstring": "https://evil.example/?u=" + X, "empty-list": [], "zero": 0, "false": False}[c["aud"]]
+            cl = {"iss": "cid", "sub": "cid", "exp": now + 300, "iat": now, "jti": "j1"}
+            if aud is not None:
+                cl["aud"] = aud
+            t = _jwt.encode({"alg": "HS256"}, cl, key)
+            try:
+                JWTBearerClientAssertion(X, validate_jti=False).process_assertion_claims(t.decode() if isinstance(t, bytes) else t, lambda h, p: key)
+                return {"accepted": True}
+            except OAuth2Error as e:
+                return {"accepted": False, "error": e.error}
         if cn == "rfc7523_validator":
             from authlib.oauth2.rfc7523 import JWTBearerTokenValidator
             v = JWTBearerTokenValidator(key, issuer=CONSUMER_ISS)
@@ -483,6 +501,13 @@ def oracle(c, out):
     if c.get("consumer"):
         if "raised" in out:
             return [(f"{c['consumer']} raised {out['raised']}", {"kind": "crash", "exc": out["raised"].split(":")[0], "consumer": c["consumer"]})]
+        if c["consumer"] == "rfc7523_client_assertion":
+            want = c["aud"] in ("=", "list")
+            if out["accepted"] != want:
+                return [(f"RFC 7523 client-assertion validation configured for the token endpoint 'https://as.example/tenant/token' "
+                         f"{'accepted' if out['accepted'] else 'refused (' + str(out.get('error')) + ')'} an assertion whose aud is the {c['aud']!r} variant",
+                         {"kind": "accepted-nonconforming" if out["accepted"] else "refused-conforming", "constraint": "value", "claim": "aud", "consumer": c["consumer"]})]
+            return []
         want = c["iss"] == "="
         if out["accepted"] and not want:
             return [(f"{c['consumer']} configured for issuer {CONSUMER_ISS!r} accepted a token whose iss is {near_iss(c['iss'])!r}", {"kind": "accepted-nonconforming", "constraint": "value",
